@@ -364,6 +364,59 @@ def r8_no_stale_state(ctx, res):
         raise AnalysisError(f'only {n} functions examined for hidden state')
 
 
+def r9_selection_materialised(ctx, res):
+    """a loop that writes must not draw its items lazily from a query generator over the tables it modifies: the
+    selection has to be computed on the state before the first write (remove('a:1.5 a') otherwise re-evaluates the bare
+    id after a:1.5 is gone and removes a second version)."""
+    writers = {s.func.key for s in write_sites(ctx)} - {'_db._init_db'}
+    conn_f = ctx.repo.func('_db', 'connect')
+    reach_cache = {}
+
+    def writes(func, node):
+        for n in ast.walk(node):
+            if isinstance(n, ast.Call) and isinstance(n.func, ast.Attribute) and n.func.attr in ('execute', 'executemany', 'executescript'):
+                for st in ctx.sites:
+                    if st.node is n and any(v.stmt is not None and v.stmt.is_write for v in st.variants):
+                        return True
+        for call, cal in ctx.cg.calls_in(func, node):
+            for c in cal:
+                if c.key == conn_f.key:
+                    continue
+                if c.key not in reach_cache:
+                    reach_cache[c.key] = bool(set(ctx.cg.reachable([c], stop=[conn_f])) & writers)
+                if reach_cache[c.key]:
+                    return True
+        return False
+    n = 0
+    for func in ctx.repo.all_funcs():
+        if func.module.short not in ('_add', '_core', '_export', '_queries', '_db'):
+            continue
+        for lp in walk_no_nested(func.node):
+            if not isinstance(lp, ast.For):
+                continue
+            it = lp.iter
+            while isinstance(it, ast.Call) and isinstance(it.func, ast.Name) and it.func.id in ('enumerate', 'reversed', 'iter') and it.args:
+                it = it.args[0]
+            if not isinstance(it, ast.Call):
+                continue
+            cal = ctx.cg.resolve_call(func, it)
+            lazy = [c for c in cal if c.module.short == '_queries'
+                    and any(isinstance(x, (ast.Yield, ast.YieldFrom)) for x in walk_no_nested(c.node))]
+            if not lazy:
+                continue
+            n += 1
+            key = f'lazy-selection:{func.key}:{norm(lp.iter)[:50]}'
+            w = any(writes(func, st) for st in lp.body)
+            res.inst(key, func.module.loc(lp), f'loop over generator query {lazy[0].name}; body writes={w}')
+            if w:
+                res.find(key, func.module.loc(lp),
+                         f'{func.qualname} iterates the generator query {lazy[0].name}(...) lazily while its loop body modifies the database: '
+                         f'later items are selected on a state that earlier iterations already changed (a specifier list is then not the '
+                         f'union of what its parts select on the original database); materialise the selection first')
+    if n < 3:
+        raise AnalysisError(f'only {n} loops over generator queries found')
+
+
 RULES = [
     ('C05-R1', r1_cascade_closure, 40),
     ('C05-R2', r2_fk_enforcement, 3),
@@ -373,4 +426,5 @@ RULES = [
     ('C05-R6', r6_skip_dominance, 2),
     ('C05-R7', r7_ownership, 12),
     ('C05-R8', r8_no_stale_state, 200),
+    ('C05-R9', r9_selection_materialised, 3),
 ]
